@@ -9,6 +9,8 @@ binary64 against the functions imported from the repository):
   sort     : Lattice.hexSortSides (whole dictionary, insertion order)
   vertices : Lattice.hexVertices (all first_side)   vs Model.hexVertices
   base     : Lattice.hexLatticeBaseVectors          vs Model.hexLatticeBaseVectors
+  walk     : the while/for loop of Lattice.hexVertices on fake adjacency
+             dictionaries (hexSortSides stubbed) vs Model.hex_vertices_abs
 on random admissible prisms (regular / irregular centrally symmetric, the 48
 listing orders, 6 and 8 planes, tilted caps, any orientation and normal sense)
 and on a malformed stream (exception classes compared; a hang of the Python
@@ -36,7 +38,9 @@ THEOREMS = ['C07_plane_intersection_on_both', 'C07_plane_intersection_direction'
             'C07_adjacent_at_vertex', 'C07_admissible_listings',
             'C07_sort_and_vertices_all_orders',
             'C07_walk_never_hangs_on_hexagons',
-            'C07_hex_base_vectors_partial', 'C07_proj_par_meaning']
+            'C07_hex_base_vectors_partial', 'C07_proj_par_meaning',
+            'C07_hex_adjacency_geometry', 'C07_hex_base_vectors',
+            'C07_regular_hexagon_in_family']
 TRUSTED = [
     'hand-written model coq/C07/Model.v (modelled, tied by execution only)',
     'binary64 evaluation: the theorems are over R; the model is run at '
@@ -45,13 +49,18 @@ TRUSTED = [
     'reader, PEG shim replacing TatSu',
 ]
 ASSUMPTIONS = [
-    'the geometric adjacency facts of an irregular centrally symmetric hexagon '
-    '(areHexSidesAdjacent answers Some exactly for neighbouring sides) are '
-    'hypotheses of C07_hex_base_vectors_partial; proved only for the regular '
-    'hexagon of C07_regular_hexagon_adjacency and the reduction lemma '
-    'C07_side_constant_along_line; covered otherwise by the ties and the sweep',
-    'index/fill logic (ranges, Fortran order, own universe, universe 0) is '
-    'shared with C06 and only swept here',
+    'C07_hex_base_vectors is about hexLatticeBaseVectors over the reals on '
+    'plane lists that carry the six sides of a strictly convex centrally '
+    'symmetric hexagon in one of the 48 MCNP listing orders, listed sense = '
+    'side of the centre; inputs outside this family (and the behaviour at '
+    'binary64) are covered by the ties and the sweep only',
+    'develop_lattice (translation of the cell by i a1 + j a2 + k a3, index '
+    'and fill logic: ranges, Fortran order, own universe, universe 0) is '
+    'shared with C06 and only swept here (whole LAT=2 decks against the '
+    'reference MCNP semantics)',
+    'extract_surfaces / the RHP macrobody expansion that produce the '
+    '(plane, side) list from the deck are not modelled; swept through the '
+    'decks',
 ]
 HEADER = ('From Coq Require Import List Arith ZArith Bool PrimFloat.\n'
           'From T4V Require Import Base.Scalar C07.Model C07.Exec.\n')
@@ -85,6 +94,52 @@ def guarded(fun, *args):
         return ('err', 'EStop')
     except Hang:
         return ('err', 'ELoop')
+    finally:
+        signal.setitimer(signal.ITIMER_REAL, 0)
+        signal.signal(signal.SIGALRM, old)
+
+
+def _valarm(_signum, _frame):
+    raise Hang()
+
+
+def walk_on_fake_adjacency(LT, pairs, first):
+    """hexVertices' loop alone: hexSortSides is replaced by a dictionary whose
+    Some-entries are exactly `pairs`; the line stored for (i, j) is the vertical
+    through (i, j, 5), so the projected vertices read back as the keys taken.
+    CPU-time watchdog (the loop takes microseconds when it ends)."""
+    adj = {}
+    for i in range(6):
+        for j in range(i + 1, 6):
+            adj[(i, j)] = (((float(i), float(j), 5.0), (0.0, 0.0, 1.0))
+                           if (i, j) in pairs else None)
+    surfs = [(((0.0, 0.0, 0.0), (1.0, 0.0, 0.0)), -1)] * 6
+    real = LT.hexSortSides
+    old = signal.signal(signal.SIGVTALRM, _valarm)
+    LT.hexSortSides = lambda _surfs: adj
+    signal.setitimer(signal.ITIMER_VIRTUAL, 0.05)
+    try:
+        verts, _ = LT.hexVertices(surfs, first)
+        return ('ok', [(int(v[0]), int(v[1])) for v in verts])
+    except Hang:
+        return ('err', 'ELoop')
+    except StopIteration:
+        return ('err', 'EStop')
+    except (KeyError, AssertionError):
+        return ('err', 'EAssert')
+    finally:
+        signal.setitimer(signal.ITIMER_VIRTUAL, 0)
+        signal.signal(signal.SIGVTALRM, old)
+        LT.hexSortSides = real
+
+
+def convert_watchdog(text, secs=30.0):
+    """impl.convert under a watchdog: a conversion that does not end (the
+    unbounded loop of hexVertices) comes back as exc='Hang'."""
+    old = signal.signal(signal.SIGALRM, _alarm)
+    signal.setitimer(signal.ITIMER_REAL, secs)
+    try:
+        return impl.convert(text, keep_stdout=False)
     finally:
         signal.setitimer(signal.ITIMER_REAL, 0)
         signal.signal(signal.SIGALRM, old)
@@ -430,7 +485,7 @@ def run(res, tier, seed, proofs_ok):
                 'non-trivial = every case (distinct by surfaces)')
 
     # ---------------- known-finding witnesses ----------------
-    conv = impl.convert(WITNESS_TRIVIAL_RANGE, keep_stdout=False)
+    conv = convert_watchdog(WITNESS_TRIVIAL_RANGE, 15.0)
     meta0 = {'caps': False, 'ranges': [(-1, 1), (0, 0), (0, 0)]}
     if not conv.ok and finding_class(conv, meta0):
         res.violation('impl-violation',
@@ -458,8 +513,16 @@ def run(res, tier, seed, proofs_ok):
     sort_cases, sort_meta = [], []
     adj_cases, inter_cases, side_cases, proj_cases = [], [], [], []
     adj_meta, inter_meta, side_meta, proj_meta = [], [], [], []
+    hangs = 0
     for num, (surfs, hexa, listing, fault) in enumerate(stream):
+        if hangs >= 4 and hexa is not None:
+            # the loop of hexVertices no longer ends on admissible prisms:
+            # already reported; do not wait 2 s for each of the others
+            res.count('skipped after repeated hangs')
+            continue
         out = guarded(LT.hexLatticeBaseVectors, surfs)
+        if out == ('err', 'ELoop') and hexa is not None:
+            hangs += 1
         res.seen(surfs)
         res.count('fault:' + str(fault))
         res.count('base:' + (out[1] if out[0] == 'err' else 'ok'))
@@ -584,7 +647,38 @@ def run(res, tier, seed, proofs_ok):
                 'base_vectors': repr(guarded(LT.hexLatticeBaseVectors,
                                              stream[n_hex][0]))})
 
+    # the traversal alone, on adjacency dictionaries with six entries chosen
+    # among the twelve pairs of different groups (most of them no hexagon)
+    cross = [(i, j) for i in range(6) for j in range(i + 1, 6)
+             if i // 2 != j // 2]
+    walk_inputs = []
+    for listing in gen.all_listings():
+        pairs = tuple(p for p in cross
+                      if (listing[p[0]] - listing[p[1]]) % 6 in (1, 5))
+        walk_inputs += [(pairs, first) for first in range(6)]
+    if quick:
+        for _ in range(700):
+            walk_inputs.append((tuple(sorted(rng.sample(cross, 6))),
+                                rng.randrange(6)))
+    else:
+        import itertools
+        walk_inputs += [(pairs, first)
+                        for pairs in itertools.combinations(cross, 6)
+                        for first in range(6)]
+    walk_cases, walk_meta = [], []
+    for pairs, first in walk_inputs:
+        wout = walk_on_fake_adjacency(LT, set(pairs), first)
+        res.count('walk:' + (wout[1] if wout[0] == 'err' else 'ok'))
+        walk_cases.append(cpair(
+            clist(cpair(cnat(i), cnat(j)) for i, j in pairs), cnat(first),
+            cres(wout, lambda ks: clist(cpair(cnat(i), cnat(j))
+                                        for i, j in ks))))
+        walk_meta.append((pairs, first, wout))
+
     ties = [
+        ('walk', 'c07_walk',
+         'list (nat * nat) * nat * res (list (nat * nat))', 'check_walk',
+         walk_cases, walk_meta, 'hex_vertices_abs (loop of hexVertices)'),
         ('base', 'c07_base', 'list fsurf * res (list fvec)', 'check_base',
          base_cases, base_meta, 'hexLatticeBaseVectors FS'),
         ('vertices', 'c07_vert', 'list fsurf * nat * res (list fvec * fvec)',
@@ -623,12 +717,17 @@ def run(res, tier, seed, proofs_ok):
 
     # ---------------- whole conversions ----------------
     n_checked = 0
+    deck_hangs = 0
     for num in range(n_decks):
+        if deck_hangs >= 2:
+            break
         deck, meta = gen_deck(rng)
         text = deckmod.render(deck)
         res.seen(text)
         res.count('deck:' + meta['style'])
-        conv = impl.convert(text, keep_stdout=False)
+        conv = convert_watchdog(text, 15.0)
+        if conv.exc == 'Hang':
+            deck_hangs += 1
         if not conv.ok or conv.text is None:
             res.count('deck rejected')
             res.violation('impl-violation',
@@ -678,8 +777,10 @@ def oracle_vertices(hexa, listing, surfs, first, out):
     u = hexa['u']
     if len(verts) != 6:
         return f'{len(verts)} vertices'
-    if abs(abs(float(np.array(axis) @ u)) - 1) > 1e-9:
-        return f'axis {axis} is not the prism axis'
+    ax = np.array(axis, float)
+    if not np.linalg.norm(ax) > 0 or float(np.linalg.norm(
+            np.cross(ax, u))) > 1e-9 * float(np.linalg.norm(ax)):
+        return f'axis {axis} is not along the prism axis'
 
     def which(pt):
         best = None
